@@ -62,7 +62,7 @@ harness(void) {
 #if VP_MODE == 0
   {
     uint8_t tk[9];
-    uint8_t tu = vp_u8();
+    uint8_t tu = vp_key();
     uint64_t tt = vp_tag();
     ldb_slice_t target;
     int got, want = n;
@@ -84,7 +84,7 @@ harness(void) {
 #elif VP_MODE == 1
   {
     int has_a = vp_bool(), has_b = vp_bool();
-    uint8_t a = vp_u8(), b = vp_u8();
+    uint8_t a = vp_key(), b = vp_key();
     ldb_slice_t sa, sb;
     int got1, got2, want;
     if (has_a && has_b) VP_ASSUME(a <= b);
@@ -105,7 +105,7 @@ harness(void) {
   }
 #elif VP_MODE == 2
   {
-    uint8_t a = vp_u8(), b = vp_u8();
+    uint8_t a = vp_key(), b = vp_key();
     ldb_slice_t sa, sb;
     int got, want = 0, l;
     VP_ASSUME(a <= b);   /* smallest/largest user key of the memtable being flushed */
@@ -151,9 +151,9 @@ harness(void) {
     ldb_vector_t out;
     int in[VP_MAXF], k, g;
     size_t i;
-    ka[0] = vp_u8();
+    ka[0] = vp_key();
     ldb_fixed64_write(ka + 1, vp_tag());
-    kb[0] = vp_u8();
+    kb[0] = vp_key();
     ldb_fixed64_write(kb + 1, vp_tag());
     if (has_a && has_b) VP_ASSUME(ka[0] <= kb[0]);
     ba.data = ka; ba.size = 9; ba.alloc = 0;
